@@ -24,13 +24,15 @@ func runProbe() {
 	u0, u1 := w.Users[0], w.Users[1]
 	tA := w.DeployERC20(A)
 	tB := w.DeployERC20(B)
+	_ = stakingcontract.StakingContract
+	_ = syscontracts.StakingContractAddress
 	w.Mint(A, tA, u0.Addr, big.NewInt(10000))
 	max := new(big.Int).Sub(new(big.Int).Lsh(big.NewInt(1), 256), big.NewInt(1))
 	w.Approve(A, u0, tA, endpointAddr, max)
 	fmt.Println("bind", w.Bind(B, tB, lower(tA), A.ChainID, 0))
 	fmt.Println("bind again same", w.Bind(B, tB, lower(tA), A.ChainID, 0))
 	tB2 := w.DeployERC20(B)
-	fmt.Println("bind second local token to same origin", w.Bind(B, tB2, lower(tA), A.ChainID, 0))
+	_ = tB2
 	fmt.Println("bindings tB", w.Bindings(B, tB, A.ChainID), "tB2", w.Bindings(B, tB2, A.ChainID))
 	fmt.Println("setup", time.Since(t0))
 
@@ -78,79 +80,149 @@ func runProbe() {
 		fmt.Printf("  ack: err=%v status=%d fee=(%s,%v) (%v)\n", err, w.AckStatus(src, p.DstChain, p.Sequence), ft, fa, time.Since(t1))
 	}
 
-	// 1. plain transfer with fee
-	p := send(A, u0, B.ChainID, tA, 1000, lower(u1.Addr), "", nil, tA, 10)
-	ft, fa := w.PacketFee(A, B.ChainID, 1)
-	fmt.Println("  fee entry", ft, fa, "status", w.AckStatus(A, B.ChainID, 1), "nextseq", w.NextSeqContract(A, B.ChainID))
-	dump("sent1")
-	a := recv(p)
-	dump("recv1")
-	// duplicate recv
-	fmt.Println("  duplicate recv:")
-	recv(p)
-	ack(p, a)
-	dump("ack1")
-	fmt.Println("  duplicate ack:")
-	ack(p, a)
-	dump("ack1-dup")
-
-	// 2. return transfer B->A of 400 by u1 to u0, fee in tB 5
+	// distinct token addresses per chain
+	w.DeployERC20(B)
+	w.DeployERC20(C)
+	w.DeployERC20(C)
+	tB = w.DeployERC20(B)
+	tC := w.DeployERC20(C)
+	nB := w.DeployERC20(B) // representation of A's native coin on B
+	fmt.Println("tA", tA, "tB", tB, "tC", tC, "nB", nB)
+	fmt.Println("bind tB<-A.tA scale 2:", w.Bind(B, tB, lower(tA), A.ChainID, 2))
+	fmt.Println("bind tC<-B.tB:", w.Bind(C, tC, lower(tB), B.ChainID, 0))
+	fmt.Println("bind nB<-A.native:", w.Bind(B, nB, lower(zeroAddr), A.ChainID, 0))
 	w.Approve(B, u1, tB, endpointAddr, max)
-	p = send(B, u1, A.ChainID, tB, 400, lower(u0.Addr), "", nil, tB, 5)
-	dump("sent2-back")
-	a = recv(p)
-	dump("recv2-back")
-	ack(p, a)
-	dump("ack2-back")
-
-	// 3. return transfer with failing call data (code 3): refund on B
-	cdRevert, _ := erc20ABI.Pack("transfer", common.HexToAddress("0xd1d1d1"), big.NewInt(1))
-	p = send(B, u1, A.ChainID, tB, 100, lower(u0.Addr), lower(tA), cdRevert, tB, 0)
-	dump("sent3-back-revert")
-	a = recv(p)
-	dump("recv3")
-	ack(p, a)
-	dump("ack3")
-
-	// 4. forward with hook failure
-	cdHook, _ := stakingcontract.StakingContract.ABI.Pack("delegate", "notavalidator", big.NewInt(1))
-	p = send(A, u0, B.ChainID, tA, 200, lower(u1.Addr), syscontracts.StakingContractAddress, cdHook, tA, 7)
-	a = recv(p)
-	dump("recv4")
-	ack(p, a)
-	dump("ack4")
-
-	// 5. send more than balance; send 0 amount; send with bad receiver
-	fmt.Println("over balance:")
-	send(A, u0, B.ChainID, tA, 1000000, lower(u1.Addr), "", nil, tA, 0)
-	fmt.Println("zero amount, no calldata:")
-	send(A, u0, B.ChainID, tA, 0, lower(u1.Addr), "", nil, tA, 0)
-	fmt.Println("zero amount with calldata:")
-	cdApprove, _ := erc20ABI.Pack("approve", common.HexToAddress("0xd1d1d1"), big.NewInt(7))
-	p = send(A, u0, B.ChainID, tA, 0, lower(u1.Addr), lower(tB), cdApprove, tA, 0)
-	if p != nil {
-		a = recv(p)
-		dump("recv5-zero-cd")
-		fmt.Println("   allowance", w.Allowance(B, tB, executeAddr, common.HexToAddress("0xd1d1d1")))
-		ack(p, a)
-	}
-	fmt.Println("bad receiver:")
-	p = send(A, u0, B.ChainID, tA, 50, "nothex", "", nil, tA, 0)
-	if p != nil {
-		a = recv(p)
-		dump("recv-badreceiver")
-		ack(p, a)
-		dump("ack-badreceiver")
-	}
-	fmt.Println("unknown dst chain:")
-	send(A, u0, "no-such-chain", tA, 50, lower(u1.Addr), "", nil, tA, 0)
-	dump("after-unknown")
-	fmt.Println("native coin A->B unbound:")
+	w.Approve(B, u1, nB, endpointAddr, max)
+	w.Approve(C, u1, tC, endpointAddr, max)
 	w.FundNative(A, u0.Addr, 100000)
-	p = send(A, u0, B.ChainID, zeroAddr, 300, lower(u1.Addr), "", nil, zeroAddr, 20)
-	fmt.Println("  native: u0", w.Balance(A, zeroAddr, u0.Addr), "ep", w.Balance(A, zeroAddr, endpointAddr), "pk", w.Balance(A, zeroAddr, packetAddr), "out", w.OutTokens(A, zeroAddr, B.ChainID), "relayer", w.Balance(A, zeroAddr, A.SenderAddress))
+	dump2 := func(tag string) {
+		fmt.Printf("[%s] A: u0=%v ep=%v out(A->B)=%v | B: u1=%v ep=%v agent=%v pk=%v supply=%v bind(A)=%v out(B->C)=%v | C: u1=%v u0=%v supply=%v bind(B)=%v\n", tag,
+			w.Balance(A, tA, u0.Addr), w.Balance(A, tA, endpointAddr), w.OutTokens(A, tA, B.ChainID),
+			w.Balance(B, tB, u1.Addr), w.Balance(B, tB, endpointAddr), w.Balance(B, tB, agentAddr), w.Balance(B, tB, packetAddr), w.TotalSupply(B, tB), w.Bindings(B, tB, A.ChainID).Amount, w.OutTokens(B, tB, C.ChainID),
+			w.Balance(C, tC, u1.Addr), w.Balance(C, tC, u0.Addr), w.TotalSupply(C, tC), w.Bindings(C, tC, B.ChainID).Amount)
+	}
+	fmt.Println("== scale 2: A->B 1000")
+	p := send(A, u0, B.ChainID, tA, 1000, lower(u1.Addr), "", nil, tA, 0)
+	a := recv(p)
+	ack(p, a)
+	dump2("scale-fwd")
+	fmt.Println("== scale 2: B->A 12345 back")
+	p = send(B, u1, A.ChainID, tB, 12300, lower(u0.Addr), "", nil, tB, 0)
+	if p != nil {
+		dump2("scale-back-sent")
+		a = recv(p)
+		ack(p, a)
+		dump2("scale-back")
+	}
+	fmt.Println("== scale 2: B->A 700 back with failing call data: refund on B")
+	cdRevert, _ := erc20ABI.Pack("transfer", common.HexToAddress("0xd1d1d1"), big.NewInt(1))
+	p = send(B, u1, A.ChainID, tB, 700, lower(u0.Addr), lower(tA), cdRevert, tB, 0)
+	dump2("scale-back-err-sent")
+	a = recv(p)
+	dump2("scale-back-err-recv")
+	ack(p, a)
+	dump2("scale-back-err-acked")
+	fmt.Println("== B->C onward of the bound token 5000")
+	p = send(B, u1, C.ChainID, tB, 5000, lower(u1.Addr), "", nil, tB, 0)
+	dump2("B->C sent")
 	a = recv(p)
 	ack(p, a)
-	fmt.Println("  native: u0", w.Balance(A, zeroAddr, u0.Addr), "ep", w.Balance(A, zeroAddr, endpointAddr), "pk", w.Balance(A, zeroAddr, packetAddr), "out", w.OutTokens(A, zeroAddr, B.ChainID), "relayer", w.Balance(A, zeroAddr, A.SenderAddress))
+	dump2("B->C done")
+	fmt.Println("== C->B back 2000 ; then B->A more than bindings")
+	p = send(C, u1, B.ChainID, tC, 2000, lower(u1.Addr), "", nil, tC, 0)
+	a = recv(p)
+	ack(p, a)
+	dump2("C->B done")
+	fmt.Println("== native A->B bound")
+	p = send(A, u0, B.ChainID, zeroAddr, 300, lower(u1.Addr), "", nil, zeroAddr, 20)
+	a = recv(p)
+	ack(p, a)
+	fmt.Println("  native: A u0", w.Balance(A, zeroAddr, u0.Addr), "ep", w.Balance(A, zeroAddr, endpointAddr), "out", w.OutTokens(A, zeroAddr, B.ChainID), "| B nB u1", w.Balance(B, nB, u1.Addr), "bind", w.Bindings(B, nB, A.ChainID).Amount)
+	p = send(B, u1, A.ChainID, nB, 120, lower(w.Users[2].Addr), "", nil, nB, 0)
+	a = recv(p)
+	ack(p, a)
+	fmt.Println("  native back: A u2", w.Balance(A, zeroAddr, w.Users[2].Addr), "ep", w.Balance(A, zeroAddr, endpointAddr), "out", w.OutTokens(A, zeroAddr, B.ChainID), "| B nB u1", w.Balance(B, nB, u1.Addr), "bind", w.Bindings(B, nB, A.ChainID).Amount, "supply", w.TotalSupply(B, nB))
+	fmt.Println("== return more than bound amount (mint extra locally first)")
+	w.Mint(B, nB, u1.Addr, big.NewInt(1000))
+	p = send(B, u1, A.ChainID, nB, 500, lower(u0.Addr), "", nil, nB, 0)
+	fmt.Println("  B nB u1", w.Balance(B, nB, u1.Addr), "bind", w.Bindings(B, nB, A.ChainID).Amount, "supply", w.TotalSupply(B, nB))
+	fmt.Println("== addPacketFee")
+	p = send(A, u0, B.ChainID, tA, 10, lower(u1.Addr), "", nil, tA, 3)
+	{
+		data, _ := packetABI.Pack("addPacketFee", B.ChainID, p.Sequence, big.NewInt(4))
+		r := w.UserTx(A, u0, packetAddr, big.NewInt(0), data)
+		ft, fa := w.PacketFee(A, B.ChainID, p.Sequence)
+		fmt.Println("  addPacketFee by u0:", r.Err, r.VmError, "fee", ft, fa, "pk bal", w.Balance(A, tA, packetAddr))
+		w.Approve(A, u0, tA, packetAddr, max)
+		r = w.UserTx(A, u0, packetAddr, big.NewInt(0), data)
+		w.Mint(A, tA, u1.Addr, big.NewInt(100))
+		w.Approve(A, u1, tA, packetAddr, max)
+		r2 := w.UserTx(A, u1, packetAddr, big.NewInt(0), data)
+		fmt.Println("  addPacketFee by another user:", r2.Err, r2.VmError)
+		ft, fa = w.PacketFee(A, B.ChainID, p.Sequence)
+		fmt.Println("  addPacketFee after approve:", r.Err, r.VmError, "fee", ft, fa, "pk bal", w.Balance(A, tA, packetAddr), "u0", w.Balance(A, tA, u0.Addr))
+	}
+	a = recv(p)
+	ack(p, a)
+	{
+		data, _ := packetABI.Pack("addPacketFee", B.ChainID, p.Sequence, big.NewInt(4))
+		r := w.UserTx(A, u0, packetAddr, big.NewInt(0), data)
+		ft, fa := w.PacketFee(A, B.ChainID, p.Sequence)
+		fmt.Println("  addPacketFee after ack:", r.Err, r.VmError, "fee", ft, fa, "pk bal", w.Balance(A, tA, packetAddr), "relayer", w.Balance(A, tA, A.SenderAddress))
+	}
+	fmt.Println("== agent multi-hop A->B->C success")
+	cdAgent, _ := agentABI.Pack("send", w.Users[2].Addr, lower(u0.Addr), C.ChainID, big.NewInt(30))
+	p = send(A, u0, B.ChainID, tA, 70, lower(agentAddr), lower(agentAddr), cdAgent, tA, 0)
+	dump2("agent sent")
+	{
+		res, err := w.RelayRecv(*p)
+		fmt.Println("  recv err", err)
+		acks := WrittenAcks(res.Events)
+		var ak packettypes.Acknowledgement
+		_ = ak.ABIDecode(acks[0])
+		on := SentPackets(res.Events)
+		fmt.Printf("  recv: code=%d msg=%q result=%x onward=%d\n", ak.Code, ak.Message, ak.Result, len(on))
+		dump2("agent recv on B")
+		ack(p, acks[0])
+		if len(on) == 1 {
+			var td packettypes.TransferData
+			_ = td.ABIDecode(on[0].TransferData)
+			fmt.Printf("    onward packet seq=%d sender=%s transfer={recv %s amt %x token %s ori %s} cb=%s\n", on[0].Sequence, on[0].Sender, td.Receiver, td.Amount, td.Token, td.OriToken, on[0].CallbackAddress)
+			ft, fa := w.PacketFee(B, C.ChainID, on[0].Sequence)
+			fmt.Println("    onward fee", ft, fa)
+			a2 := recv(&on[0])
+			dump2("agent onward recv on C")
+			ack(&on[0], a2)
+			dump2("agent onward acked")
+		}
+	}
+	fmt.Println("== agent multi-hop, onward fails on C (receiver bad) => agent callback refund")
+	cdAgent, _ = agentABI.Pack("send", w.Users[2].Addr, "nothex", C.ChainID, big.NewInt(30))
+	p = send(A, u0, B.ChainID, tA, 70, lower(agentAddr), lower(agentAddr), cdAgent, tA, 0)
+	{
+		res, err := w.RelayRecv(*p)
+		fmt.Println("  recv err", err)
+		acks := WrittenAcks(res.Events)
+		on := SentPackets(res.Events)
+		ack(p, acks[0])
+		dump2("agent2 recv on B")
+		if len(on) == 1 {
+			a2 := recv(&on[0])
+			ack(&on[0], a2)
+			dump2("agent2 onward acked (refund?)")
+			fmt.Println("   B: u2 (refund address) =", w.Balance(B, tB, w.Users[2].Addr), "relayerB", w.Balance(B, tB, B.SenderAddress))
+		}
+	}
+	fmt.Println("== callback address without callback()")
+	{
+		r := w.CrossChainCall(A, u0, packettypes.CrossChainData{DstChain: B.ChainID, TokenAddress: tA, Receiver: lower(u1.Addr), Amount: big.NewInt(5),
+			ContractAddress: "", CallData: nil, CallbackAddress: tA, FeeOption: 0}, packettypes.Fee{TokenAddress: tA, Amount: big.NewInt(1)})
+		ps := SentPackets(toABCI(r.Events))
+		fmt.Println("  send", r.Err, r.VmError, len(ps))
+		a = recv(&ps[0])
+		dump2("cb before ack")
+		ack(&ps[0], a)
+		dump2("cb after ack")
+	}
 	fmt.Println("total", time.Since(t0))
 }
